@@ -252,23 +252,46 @@ Definition row_key (r : row) : rowkey := map key_of r.
 Definition rowkey_eqb : rowkey -> rowkey -> bool := list_eqb keypart_eqb.
 Definition seen_mem (k : rowkey) (seen : list rowkey) : bool := existsb (rowkey_eqb k) seen.
 
-(** the rows of one input chunk; [cap] = free slots of the output builder (capacity 2048).
-    As written: when the builder becomes full the operator RETURNS, abandoning the rest of the
-    input chunk ([if builder.is_full() { return Ok(Some(builder.finish())) }]). *)
-Fixpoint distinct_chunk (cap : Z) (rows : list row) (seen : list rowkey) : list row * list rowkey :=
+(** BEFORE 24f6dab (finding C11-K5, fixed): the rows of one input chunk; [cap] = free slots of the
+    output builder (capacity 2048).  When the builder became full the operator RETURNED, abandoning
+    the rest of the input chunk ([if builder.is_full() { return Ok(Some(builder.finish())) }]). *)
+Fixpoint distinct_chunk_pre (cap : Z) (rows : list row) (seen : list rowkey) : list row * list rowkey :=
   match rows with
   | [] => ([], seen)
   | r :: t =>
       let k := row_key r in
-      if seen_mem k seen then distinct_chunk cap t seen
+      if seen_mem k seen then distinct_chunk_pre cap t seen
       else if cap <=? 1 then ([r], k :: seen)
-      else let (o, s) := distinct_chunk (cap - 1) t (k :: seen) in (r :: o, s)
+      else let (o, s) := distinct_chunk_pre (cap - 1) t (k :: seen) in (r :: o, s)
+  end.
+Fixpoint distinct_next_pre (seen : list rowkey) (cs : list chunk) : option (chunk * list rowkey * list chunk) :=
+  match cs with
+  | [] => None
+  | c :: rest =>
+      let (o, s) := distinct_chunk_pre 2048 (lrows c) seen in
+      match o with
+      | [] => distinct_next_pre s rest
+      | _ => Some (mkChunk o None, s, rest)
+      end
+  end.
+Definition drain_distinct_pre (cs : list chunk) : list chunk :=
+  drain_st distinct_next_pre (fuel_of cs) [] cs.
+
+(** as written NOW (24f6dab): the output builder is sized by the input chunk and there is no early
+    return — one output chunk per input chunk, every fresh row copied *)
+Fixpoint distinct_chunk (rows : list row) (seen : list rowkey) : list row * list rowkey :=
+  match rows with
+  | [] => ([], seen)
+  | r :: t =>
+      let k := row_key r in
+      if seen_mem k seen then distinct_chunk t seen
+      else let (o, s) := distinct_chunk t (k :: seen) in (r :: o, s)
   end.
 Fixpoint distinct_next (seen : list rowkey) (cs : list chunk) : option (chunk * list rowkey * list chunk) :=
   match cs with
   | [] => None
   | c :: rest =>
-      let (o, s) := distinct_chunk 2048 (lrows c) seen in
+      let (o, s) := distinct_chunk (lrows c) seen in
       match o with
       | [] => distinct_next s rest
       | _ => Some (mkChunk o None, s, rest)
@@ -276,31 +299,6 @@ Fixpoint distinct_next (seen : list rowkey) (cs : list chunk) : option (chunk * 
   end.
 Definition drain_distinct (cs : list chunk) : list chunk :=
   drain_st distinct_next (fuel_of cs) [] cs.
-
-(** PROPOSED repair proposed-fixes/C11-distinct-chunk.diff (not in /repo while finding C11-K5 is
-    open; Run.v's [fix_k5_applied] selects which transcription the run compares with): the
-    output builder is sized by the input chunk and there is no early return — one output chunk
-    per input chunk, every fresh row copied *)
-Fixpoint distinct_chunk_fix (rows : list row) (seen : list rowkey) : list row * list rowkey :=
-  match rows with
-  | [] => ([], seen)
-  | r :: t =>
-      let k := row_key r in
-      if seen_mem k seen then distinct_chunk_fix t seen
-      else let (o, s) := distinct_chunk_fix t (k :: seen) in (r :: o, s)
-  end.
-Fixpoint distinct_next_fix (seen : list rowkey) (cs : list chunk) : option (chunk * list rowkey * list chunk) :=
-  match cs with
-  | [] => None
-  | c :: rest =>
-      let (o, s) := distinct_chunk_fix (lrows c) seen in
-      match o with
-      | [] => distinct_next_fix s rest
-      | _ => Some (mkChunk o None, s, rest)
-      end
-  end.
-Definition drain_distinct_fix (cs : list chunk) : list chunk :=
-  drain_st distinct_next_fix (fuel_of cs) [] cs.
 
 (** specification: first occurrences, w.r.t. the row key *)
 Fixpoint dedup_from (seen : list rowkey) (l : list row) : list row :=
@@ -426,10 +424,10 @@ Definition opt_skip (s : option Z) (cs : list chunk) : list chunk :=
 Definition opt_limit (n : option Z) (cs : list chunk) : list chunk :=
   match n with Some k => drain_limit k cs | None => cs end.
 
-(** [RETURN x [ORDER BY x] [SKIP s] [LIMIT n]]:
-    GQL  (gql_translator.rs): Skip and Limit are applied to the plan BEFORE Sort is put on top;
+(** [RETURN x [ORDER BY x] [SKIP s] [LIMIT n]] BEFORE ce12a2a (finding C11-K2, fixed):
+    GQL  (gql_translator.rs): Skip and Limit were applied to the plan BEFORE Sort was put on top;
     Cypher (cypher_translator.rs): Sort, then Skip, then Limit. *)
-Definition window_query (l : lang) (ord : bool) (s n : option Z) (rows : list row) : list row :=
+Definition window_query_pre (l : lang) (ord : bool) (s n : option Z) (rows : list row) : list row :=
   match l with
   | Gql => sort_if ord (rows_of (opt_limit n (opt_skip s (scan_chunks rows))))
   | Cypher => rows_of (opt_limit n (opt_skip s (scan_chunks (sort_if ord rows))))
@@ -439,8 +437,8 @@ Definition window_spec (ord : bool) (s n : option Z) (rows : list row) : list ro
   let r := match s with Some k => skipn (Z.to_nat k) r | None => r end in
   match n with Some k => firstn (Z.to_nat k) r | None => r end.
 
-(** [RETURN count(n) [SKIP s] [LIMIT n]]: GQL limits the INPUT of the aggregate, Cypher its output *)
-Definition count_query (l : lang) (s n : option Z) (rows : list row) : list row :=
+(** [RETURN count(n) [SKIP s] [LIMIT n]] before ce12a2a: GQL limited the INPUT of the aggregate, Cypher its output *)
+Definition count_query_pre (l : lang) (s n : option Z) (rows : list row) : list row :=
   match l with
   | Gql => rows_of (drain_simple_agg [AggCount 0%nat] (opt_limit n (opt_skip s (scan_chunks rows))))
   | Cypher => rows_of (opt_limit n (opt_skip s (drain_simple_agg [AggCount 0%nat] (scan_chunks rows))))
@@ -448,28 +446,28 @@ Definition count_query (l : lang) (s n : option Z) (rows : list row) : list row 
 Definition count_spec (s n : option Z) (rows : list row) : list row :=
   window_spec false s n [[VInt (Z.of_nat (length rows))]].
 
-(** PROPOSED repair proposed-fixes/C11-gql-skip-limit-order.diff (finding C11-K2): the GQL
-    translator applies SKIP and LIMIT above ORDER BY and above the aggregate, as Cypher does *)
-Definition window_query_fix (l : lang) (ord : bool) (s n : option Z) (rows : list row) : list row :=
-  window_query Cypher ord s n rows.
-Definition count_query_fix (l : lang) (s n : option Z) (rows : list row) : list row :=
-  count_query Cypher s n rows.
+(** as written NOW (ce12a2a): the GQL translator applies SKIP and LIMIT above ORDER BY and above the
+    aggregate, as the Cypher, Gremlin and GraphQL translators do — one wiring for every front end *)
+Definition window_query (l : lang) (ord : bool) (s n : option Z) (rows : list row) : list row :=
+  window_query_pre Cypher ord s n rows.
+Definition count_query (l : lang) (s n : option Z) (rows : list row) : list row :=
+  count_query_pre Cypher s n rows.
 
-(** [RETURN DISTINCT x]: [plan_return] never looks at [ReturnOp::distinct] — no Distinct operator
-    is planned; [WITH DISTINCT x ... RETURN x] plans a [DistinctOperator]. *)
-Definition return_distinct_query (rows : list row) : list row := rows_of (scan_chunks rows).
+(** [RETURN DISTINCT x] BEFORE 36a1196 (finding C11-K3, fixed): [plan_return] never looked at
+    [ReturnOp::distinct] — no Distinct operator was planned *)
+Definition return_distinct_query_pre (rows : list row) : list row := rows_of (scan_chunks rows).
+(** [WITH DISTINCT x ... RETURN x] plans a [DistinctOperator] ([plan_distinct]); NOW (36a1196)
+    [plan_return] wraps the projection in one too when [ReturnOp::distinct] is set *)
 Definition with_distinct_query (rows : list row) : list row := rows_of (drain_distinct (scan_chunks rows)).
-
-(** PROPOSED repair proposed-fixes/C11-return-distinct.diff (finding C11-K3): [plan_return] wraps
-    the projection in a [DistinctOperator] when [ReturnOp::distinct] is set *)
-Definition return_distinct_query_fix (rows : list row) : list row := rows_of (drain_distinct (scan_chunks rows)).
+Definition return_distinct_query (rows : list row) : list row := rows_of (drain_distinct (scan_chunks rows)).
 
 (** * [Planner::plan_filter] (planner.rs): a range predicate directly over a node scan is not
       evaluated by the Filter operator but by [LpgStore::find_nodes_in_range] (store.rs), which
       compares with [compare_values_for_range]: only values of the SAME type are comparable
       (Int64 with Float64 is not), booleans are ordered, a NaN is incomparable.
       (The zone-map short cut in front of it and the property-index path are not modelled: the
-      run creates no index; the zone-map check is consulted only as listed under finding K6.) *)
+      run creates no index; since 1879631 the zone map never prunes [<>] — before, it pruned
+      [n.p <> v] when min = max = v although a stored NULL satisfies it: finding C11-K6, fixed.) *)
 Definition cmp_z (a b : Z) : Z := if a <? b then -1 else if b <? a then 1 else 0.
 Definition range_cmp (a b : value) : option Z :=
   match a, b with
